@@ -21,6 +21,8 @@ type c11Case struct {
 	X     string `json:"x,omitempty"`
 	Odd   uint   `json:"odd,omitempty"`
 	Class string `json:"class"`
+	// Seq: field elements mapped one after the other in this order (Kind == "seq"): u then -u, u twice, ...
+	Seq []string `json:"seq,omitempty"`
 	// Conc: field elements mapped simultaneously, one goroutine each (Kind == "concurrent").
 	Conc []string `json:"concurrent,omitempty"`
 }
@@ -32,12 +34,12 @@ func init() {
 		Rule: "sswu cases = field elements u: the three exceptional inputs 0 and ±sqrt(-1/Z) (computed by the oracle), ±1, ±2, the structured list mod p (boundaries, 2^k, 2^k±1, p-2^k, limb-perturbed p, R mod p), " +
 			"Montgomery-structured values, (u,-u) pairs, PRNG values; each is mapped by SSWU and then by the isogeny. iso cases = points of E' constructed by the oracle from chosen abscissae (structured + PRNG, both signs), not only SSWU outputs. " +
 			"Oracle: RFC 9380 6.6.2 (non-optimised: inv0, is_square, sqrt, sgn0) and the E.1 rational map in math/big; checks: SSWU output equals the oracle's point, lies on E', sgn0(y)=sgn0(u); isogeny output equals the oracle's, is a valid canonical point with y^2=x^3+7; no panic. " +
-			"Concurrent batches: 8 goroutines run the whole map (SSWU then isogeny) simultaneously on their own inputs, each output judged against the oracle. non-trivial = all; distinct by input.",
+			"Sequences: u then -u, u twice, 0 between inputs (what a memo keyed on u^2 gets wrong); steered inputs: u solved so that u^2, tv1, tv3 = tv2+1 or tv6 (the operands of the multiplications by Z and B' = 1771), resp. x'^2, x'^3 in the isogeny, have structured stored values. Concurrent batches: 8 goroutines run the whole map (SSWU then isogeny) simultaneously on their own inputs, each output judged against the oracle. non-trivial = all; distinct by input.",
 		NewCase:  func() any { return &c11Case{} },
 		Generate: c11Generate,
 		Run:      c11Run,
 		Require: func(string) map[string]int64 {
-			return map[string]int64{"sswu": 3000, "sswu:exceptional": 3, "sswu:gx1-square": 1000, "sswu:gx1-nonsquare": 1000, "sswu:flipped": 500, "sswu:not-flipped": 500, "iso": 3000, "sswu:sgn0(u)=1": 500, "sswu:sgn0(u)=0": 500, "concurrent-batches": 4}
+			return map[string]int64{"sswu": 3000, "sswu:exceptional": 3, "sswu:gx1-square": 1000, "sswu:gx1-nonsquare": 1000, "sswu:flipped": 500, "sswu:not-flipped": 500, "iso": 3000, "sswu:sgn0(u)=1": 500, "sswu:sgn0(u)=0": 500, "concurrent-batches": 4, "seq": 200, "steered:tv3": 20, "steered:u2": 20, "steered:tv6": 10, "steered:x2": 10}
 		},
 	})
 }
@@ -82,6 +84,58 @@ func c11Generate(c *mon.Ctx) {
 		emitX(v.X, v.Class)
 	}
 
+	// sequences: what a memo of the last mapping keyed on u^2 (or on anything coarser than u) gets wrong
+	sq := c.SharedRng("sequences")
+
+	for i := 0; i < c.N(300, 30000); i++ {
+		u := gen.Draw(sq, p).X
+		v := gen.Draw(sq, p).X
+		nu := oracle.FNeg(u)
+
+		var seq []*big.Int
+
+		switch i % 5 {
+		case 0:
+			seq = []*big.Int{u, nu}
+		case 1:
+			seq = []*big.Int{nu, u, u}
+		case 2:
+			seq = []*big.Int{u, v, nu, u}
+		case 3:
+			seq = []*big.Int{u, oracle.FMul(u, oracle.Beta), nu} // same u^6? no: a different u with related powers
+		default:
+			seq = []*big.Int{big.NewInt(0), u, big.NewInt(0), nu}
+		}
+
+		cs := &c11Case{Kind: "seq", Class: "sequence"}
+		for _, x := range seq {
+			cs.Seq = append(cs.Seq, hx(x))
+		}
+
+		c.Structured(func() any { return cs })
+	}
+
+	// steered inputs: u solved so that an intermediate of the straight-line SSWU (u^2, tv1 = Z u^2, tv3 = tv2 + 1, which is
+	// multiplied by B' = 1771, tv6 = tv4^3, also multiplied by B') or of the isogeny (x'^2, x'^3) has a structured stored value
+	targets := gen.StoredTargets(p)
+	strideT := c.N(2, 1)
+
+	for ti := int(c.Seed % uint64(strideT)); ti < len(targets); ti += strideT {
+		for _, which := range []string{"u2", "tv1", "tv3", "tv6"} {
+			if u, ok := c11Steer(which, targets[ti]); ok {
+				s, w := hx(u), which
+				c.Structured(func() any { return &c11Case{Kind: "sswu", U: s, Class: "steered:" + w} })
+			}
+		}
+
+		for _, which := range []string{"x2", "x3"} {
+			if x, ok := c11Steer(which, targets[ti]); ok {
+				s, w := hx(x), which
+				c.Structured(func() any { return &c11Case{Kind: "iso", X: s, Odd: uint(ti % 2), Class: "steered:" + w} })
+			}
+		}
+	}
+
 	cr := c.SharedRng("concurrent")
 
 	for b := 0; b < c.N(8, 400); b++ {
@@ -118,6 +172,27 @@ func c11Run(c *mon.Ctx, csAny any) {
 	if cs.Kind == "concurrent" {
 		c11RunConcurrent(c, cs)
 		return
+	}
+
+	if cs.Kind == "seq" {
+		c.Count("seq")
+
+		for i, h := range cs.Seq {
+			sub := &c11Case{Kind: "sswu", U: h, Class: "sequence"}
+			before := c.Res.ViolationCount
+			c11Run(c, sub)
+
+			if c.Res.ViolationCount != before {
+				c.Fail(fmt.Sprintf("…observed at position %d of the sequence of inputs %v mapped one after the other", i, cs.Seq), "sswu-sequence", nil)
+				return
+			}
+		}
+
+		return
+	}
+
+	if len(cs.Class) > 8 && cs.Class[:8] == "steered:" {
+		c.Count(cs.Class)
 	}
 
 	switch cs.Kind {
@@ -300,4 +375,68 @@ func c11RunConcurrent(c *mon.Ctx, cs *c11Case) {
 	}
 
 	c.Seen(cs.Conc)
+}
+
+// c11Steer solves for an input whose named intermediate has the stored value t.
+func c11Steer(which string, t *big.Int) (*big.Int, bool) {
+	v := oracle.FromMont(oracle.Limbs(t), oracle.P) // canonical value with stored form t
+	if v.Sign() == 0 {
+		return nil, false
+	}
+
+	fromTv2 := func(tv2 *big.Int) (*big.Int, bool) {
+		// tv2 = w^2 + w with w = Z u^2
+		disc := oracle.FAdd(big.NewInt(1), oracle.FMul(big.NewInt(4), tv2))
+
+		rt, ok := oracle.FSqrt(disc)
+		if !ok {
+			return nil, false
+		}
+
+		for _, sgn := range []*big.Int{rt, oracle.FNeg(rt)} {
+			w := oracle.FMul(oracle.FSub(sgn, big.NewInt(1)), oracle.FInv0(big.NewInt(2)))
+			if u, ok := oracle.FSqrt(oracle.FMul(w, oracle.FInv0(oracle.Z))); ok && u.Sign() != 0 {
+				return u, true
+			}
+		}
+
+		return nil, false
+	}
+
+	switch which {
+	case "u2":
+		return oracle.FSqrt(v)
+	case "tv1":
+		return oracle.FSqrt(oracle.FMul(v, oracle.FInv0(oracle.Z)))
+	case "tv3":
+		return fromTv2(oracle.FSub(v, big.NewInt(1)))
+	case "tv6":
+		// tv6 = tv4^3, tv4 = A * (-tv2)
+		tv4, ok := oracle.FCubeRoot(v)
+		if !ok {
+			return nil, false
+		}
+
+		return fromTv2(oracle.FNeg(oracle.FMul(tv4, oracle.FInv0(oracle.IsoA))))
+	case "x2":
+		x, ok := oracle.FSqrt(v)
+		if !ok {
+			return nil, false
+		}
+
+		_, on := oracle.FSqrt(gIsoRef(x))
+
+		return x, on
+	case "x3":
+		x, ok := oracle.FCubeRoot(v)
+		if !ok {
+			return nil, false
+		}
+
+		_, on := oracle.FSqrt(gIsoRef(x))
+
+		return x, on
+	}
+
+	return nil, false
 }
